@@ -60,6 +60,8 @@ def _used_objects(kind):
 def build(tier, seed):
     set_tier(tier)
     tasks = [Task(f"{PROP}.S.deplist", PROP, "Project.correlate deplist", lambda: __import__("contracts.deps", fromlist=["x"]).deplist_obligations(PROP, lambda: __import__("bounded.c07", fromlist=["x"]).search())),
+             Task(f"{PROP}.S.block_scope", PROP, "statement dispatch", lambda: scoping.block_scope_guards(PROP, lambda: __import__("bounded.c07", fromlist=["x"]).search())),
+             Task(f"{PROP}.S.find_used_modules", PROP, "find_used_modules", lambda: __import__("contracts.external", fromlist=["x"]).find_used_modules_recursion(PROP, lambda: __import__("bounded.c07", fromlist=["x"]).search())),
              a_task(PROP, _with_search(scoping.parent_submodule_block)),
              *[a_task(PROP, _used_objects(k)) for k in ("pub_procs", "pub_absints", "pub_types", "pub_vars")],
              a_task(PROP, _with_search(scoping.host_block)), a_task(PROP, _with_search(scoping.submodule_block)), a_task(PROP, _with_search(scoping.own_procs_hide)), a_task(PROP, _get_deps),
